@@ -261,6 +261,8 @@ enum Job {
     Stream(Vec<usize>),
     Unp(usize, usize, f64, f64),
     UnpScaled(usize, usize, f64, f64, i32),
+    /// one confidence asked of every construction in turn (on one thread)
+    UnpChain(Kind, f64),
     Prop(usize),
 }
 
@@ -297,6 +299,11 @@ fn run(tier: Tier) -> Sink {
     }
     for n in 4..=tier.pick(120, 400) {
         jobs.push(Job::Prop(n));
+    }
+    // confidence-major order: one confidence, then every construction (different, mostly
+    // fractional effective dofs, many sharing their integer part) one after the other
+    for &(k, l) in &confs {
+        jobs.push(Job::UnpChain(k, l));
     }
     // every binade: three constructions scaled by every power of two for which the data and
     // their squares stay normal (2^-500 .. 2^505): intermediate quantities of the effective dof
@@ -340,6 +347,15 @@ fn run(tier: Tier) -> Sink {
         Job::Dense(lo, hi, jmin) => judge_dense(*lo, *hi, *jmin, s),
         Job::Stream(p) => judge_stream(p, &confs, s),
         Job::Unp(na, nb, sa, sb) => judge_unpaired(*na, *nb, *sa, *sb, &confs, s),
+        Job::UnpChain(k, l) => {
+            for na in 2..=12 {
+                for nb in 2..=12 {
+                    for r in [0.25, 0.5, 1.0, 2.0, 4.0, 10.0] {
+                        judge_unpaired(na, nb, 1.0, r, &[(*k, *l)], s);
+                    }
+                }
+            }
+        }
         Job::UnpScaled(na, nb, sa, sb, e) => judge_unpaired_scaled(*na, *nb, *sa, *sb, *e, &confs, s),
         Job::Prop(n) => judge_prop(*n, &confs, s),
     })
